@@ -116,7 +116,7 @@ def load_overlay(path, variants=frozenset()):
             flush()
             h = ln[4:].strip()
             m = re.fullmatch(r'(before|after)\s+<<(.*)>>', h)
-            m2 = re.fullmatch(r'loop\s+(\d+)\s+(pre|spec)', h)
+            m2 = re.fullmatch(r'loop\s+(\d+)\s+(pre|spec|post)', h)
             if m:
                 sec = (m.group(1), m.group(2), no)
             elif m2:
@@ -248,6 +248,9 @@ def _desugar(body, spec, ctr, dropped, used):
             ctr.n += 1
             pre = spec.sections.get(('loop', k, 'pre')) if spec else None
             lsp = spec.sections.get(('loop', k, 'spec')) if spec else None
+            lpost = spec.sections.get(('loop', k, 'post')) if spec else None
+            if lpost is not None:
+                used.add(('loop', k, 'post'))
             if pre is not None:
                 used.add(('loop', k, 'pre'))
             if lsp is not None:
@@ -278,6 +281,8 @@ def _desugar(body, spec, ctr, dropped, used):
                 inner = body[e + 1:close]
                 dropped.append(('T3', 'for', [t]))
                 dropped.append(('T3', 'in', [body[j]]))
+                dropped.append(('T3swap', 'pattern/iterator-expression order', [],
+                                [x for x in pat if x.sig()], [x for x in expr if x.sig()]))
                 it = '__it%d' % k
                 out += lit('{ let mut %s = IntoIterator::into_iter(' % it, 'T3')
                 out += _trim(_desugar(expr, spec, ctr, dropped, used))
@@ -293,7 +298,10 @@ def _desugar(body, spec, ctr, dropped, used):
                 out.append(body[e])
                 out += _desugar(inner, spec, ctr, dropped, used)
                 out.append(body[close])
-                out += lit(', None => { break; } } } }', 'T3')
+                out += lit(', None => { break; } } }', 'T3')
+                if lpost is not None:
+                    out += splice_toks('\n' + lpost)
+                out += lit(' }', 'T3')
                 i = close + 1
                 continue
             # while / loop: only splice
@@ -316,6 +324,8 @@ def _desugar(body, spec, ctr, dropped, used):
             out.append(body[e])
             out += _desugar(body[e + 1:close], spec, ctr, dropped, used)
             out.append(body[close])
+            if lpost is not None:
+                out += splice_toks('\n' + lpost)
             i = close + 1
             continue
         out.append(t)
@@ -430,16 +440,27 @@ def extract_fn(item, file, impl_key, spec, twin_false=False):
                     raise Unsupported('provenance: token dropped twice in %s' % item.name)
                 dropped_ids.add(id(t))
     emitted = [t for t in out if t.sig() and t.origin == 'orig']
-    last = -1
-    for t in emitted:
-        if t.pos <= last:
-            raise Unsupported('provenance: source tokens reordered or duplicated in %s' % item.name)
-        last = t.pos
-    em_ids = set(id(t) for t in emitted)
-    want_ids = set(id(t) for t in want)
-    if em_ids & dropped_ids or (em_ids | dropped_ids) != want_ids:
-        raise Unsupported('provenance check failed for %s: emitted source tokens are not the source minus T2/T3 spans'
-                          % item.name)
+    # expected order: the source order minus dropped tokens, with each `for PAT in EXPR` emitted as EXPR .. PAT (T3)
+    exp = [t for t in want if id(t) not in dropped_ids]
+    for d in dropped:
+        if d[0] != 'T3swap':
+            continue
+        pat, expr = d[3], d[4]
+        pat = [t for t in pat if id(t) not in dropped_ids]
+        expr = [t for t in expr if id(t) not in dropped_ids]
+        if not pat:
+            continue
+        idx = [i for i, t in enumerate(exp) if t is pat[0]]
+        if len(idx) != 1:
+            raise Unsupported('provenance: T3 pattern not found in %s' % item.name)
+        i = idx[0]
+        seg = exp[i:i + len(pat) + len(expr)]
+        if [id(t) for t in seg] != [id(t) for t in pat + expr]:
+            raise Unsupported('provenance: T3 pattern/expression not adjacent in %s' % item.name)
+        exp[i:i + len(pat) + len(expr)] = expr + pat
+    if [id(t) for t in exp] != [id(t) for t in emitted]:
+        raise Unsupported('provenance check failed for %s: emitted source tokens are not the source minus T2/T3 spans, '
+                          'in source order' % item.name)
     for t in out:
         if t.origin not in ('orig', 'T3', 'T6', 'T7'):
             raise Unsupported('provenance: unknown origin %s' % t.origin)
@@ -456,7 +477,7 @@ def extract_fn(item, file, impl_key, spec, twin_false=False):
 # type / const extraction (T4)
 # --------------------------------------------------------------------------------------
 
-def extract_type(item, derives):
+def extract_type(item, derives, add=()):
     dropped = []
     out = []
     keep = []
@@ -471,6 +492,7 @@ def extract_type(item, derives):
             dropped.append(('T1', render(toks)))
         else:
             raise Unsupported('type attribute not understood: %s' % render(toks))
+    keep = list(keep) + [d for d in add if d not in keep]
     if keep:
         out += lit('#[derive(%s)]\n' % ', '.join(keep), 'T4')
     body = item.toks[item.lead_end:]
@@ -592,14 +614,17 @@ def build_unit(name, repo, template_path, overlay_path, twin_false=False, varian
                 elif kind == 'type':
                     file, nm = a[2], a[3]
                     derives = DEFAULT_DERIVES
+                    add = ()
                     for o in a[4:]:
                         if o.startswith('derive='):
                             derives = tuple(x for x in o[7:].split(',') if x)
+                        elif o.startswith('add='):
+                            add = tuple(x for x in o[4:].split(',') if x)
                     items = _load_items(repo, file, cache)
                     hits = [it for it in items if it.kind in ('struct', 'enum') and it.name == nm]
                     if len(hits) != 1:
                         raise Unsupported('type %s in %s: %d matches' % (nm, file, len(hits)))
-                    toks, dr = extract_type(hits[0], derives)
+                    toks, dr = extract_type(hits[0], derives, add)
                     for d in dr:
                         u.dropped.append((nm,) + d)
                     chunks.append(('toks', _trim(toks), file))
@@ -684,7 +709,8 @@ def build_unit(name, repo, template_path, overlay_path, twin_false=False, varian
                                     src_line=fo.src_line, tags=(fo.spec.tags if fo.spec else []),
                                     has_spec=fo.spec is not None, loops=fo.loops))
             for d in fo.dropped:
-                u.dropped.append((fo.qual, d[0], d[1]))
+                if d[0] != 'T3swap':
+                    u.dropped.append((fo.qual, d[0], d[1]))
     u.text = ''.join(parts)
     # regions from //# markers
     cur = None
